@@ -175,7 +175,11 @@ def check_copy(res, objects, s, route, salt, info):
         f.set_value(12345.0)
         f.signature.clear()
     c.state_fluents.clear()
-    after = read_lib_state(l)
+    try:
+        after = read_lib_state(l)
+    except BadState as e:
+        res.bad("C14/copy/original-changed-by-mutating-copy", {**info, "unreadable-after": str(e)})
+        return
     if not pddl.states_equal(before, after, tol=Fraction(0)):
         res.bad("C14/copy/original-changed-by-mutating-copy", {**info, "diff": pddl.state_diff(before, after)})
         return
@@ -186,7 +190,11 @@ def check_copy(res, objects, s, route, salt, info):
         l.state_predicates[k].clear()
     for f in l.state_fluents.values():
         f.set_value(-777.0)
-    if not pddl.states_equal(snap, read_lib_state(c2), tol=Fraction(0)):
+    try:
+        snap2 = read_lib_state(c2)
+    except BadState:
+        snap2 = None
+    if snap2 is None or not pddl.states_equal(snap, snap2, tol=Fraction(0)):
         res.bad("C14/copy/copy-changed-by-mutating-original", info)
 
 
